@@ -107,7 +107,21 @@ V8_NAMES = {"__m512i", "__attribute__((__vector_size__(8 * sizeof(long long)))) 
 
 
 def classify(t):
-    """-> (cat, extra). cat in u64,int,bool,v4,v8,m8,m16,ptr,arr,void,other"""
+    """-> (cat, extra). cat in u64,int,bool,v4,v8,m8,m16,ptr,arr,vr4,vr8,void,other
+    vr4 / vr8: pointer / array / array reference of vector registers (`__m256i *`, `__m256i[3]`,
+    `Goldilocks3::Element_avx`, `Element_avx &`; `__m512i` likewise): extra = (is_const, length or None)"""
+    gv = re.match(r"^(const\s+)?(Goldilocks3::)?Element_avx(512)?(\s+const)?\s*(&|\*|\*\s*const)?$", t.strip())
+    if gv:
+        return ("vr8" if gv.group(3) else "vr4", (bool(gv.group(1) or gv.group(4)), 3))
+    c, ex = _classify(t)
+    if c == "ptr" and ex[0] in ("v4", "v8"):
+        return ("vr4" if ex[0] == "v4" else "vr8", (ex[1], None))
+    if c == "arr" and ex[0] in ("v4", "v8"):
+        return ("vr4" if ex[0] == "v4" else "vr8", (ex[2], ex[1]))
+    return c, ex
+
+
+def _classify(t):
     t0 = t.strip()
     # the cubic-extension element is a typedef of Goldilocks::Element[3]: a 3-word region
     g3 = re.match(r"^(const\s+)?(Goldilocks3::)?Element(\s+const)?\s*(&|\*|\*\s*const)?$", t0)
@@ -124,17 +138,17 @@ def classify(t):
     # array reference  "Goldilocks::Element (&)[3]" already stripped '&'?  handle "(&)[3]" form
     m = re.match(r"^(.*)\(&+\)\[(\d+)\]$", t.strip())
     if m:
-        return ("arr", (classify(m.group(1))[0], int(m.group(2)), "const" in m.group(1)))
+        return ("arr", (_classify(m.group(1))[0], int(m.group(2)), "const" in m.group(1)))
     m = re.match(r"^(.*)\[(\d*)\]$", t0)
     if m and not t0.endswith(")"):
         inner = m.group(1).strip()
         n = int(m.group(2)) if m.group(2) else None
-        return ("arr", (classify(inner)[0], n, inner.startswith("const ") or inner.endswith(" const")))
+        return ("arr", (_classify(inner)[0], n, inner.startswith("const ") or inner.endswith(" const")))
     if t0.endswith("*") or t0.endswith("*const") or t0.endswith("* const") or t0.endswith("*__restrict"):
         base = t0.rstrip("const ").rstrip()
         base = re.sub(r"\*\s*(const|__restrict)?\s*$", "", t0).strip()
         isconst = base.startswith("const ") or base.endswith(" const")
-        return ("ptr", (classify(base)[0], isconst))
+        return ("ptr", (_classify(base)[0], isconst))
     b = strip_cv(t0)
     if b in U64_NAMES:
         return ("u64", None)
@@ -156,10 +170,12 @@ def classify(t):
 
 
 LEAN_TY = {"u64": "BitVec 64", "bool": "Bool", "v4": "V4", "v8": "V8", "m8": "BitVec 8",
-           "m16": "BitVec 16", "ptr": "Region", "arr": "Region", "int": "Int"}
+           "m16": "BitVec 16", "ptr": "Region", "arr": "Region", "int": "Int",
+           "vr4": "VRegion4", "vr8": "VRegion8", "u32": "BitVec 32"}
 
 ZERO_OF = {"u64": "0#64", "bool": "false", "v4": "V4.zero", "v8": "V8.zero", "m8": "0#8", "m16": "0#16",
-           "ptr": "Region.zero", "arr": "Region.zero", "int": "(0 : Int)"}
+           "ptr": "Region.zero", "arr": "Region.zero", "int": "(0 : Int)", "vr4": "VRegion4.zero", "vr8": "VRegion8.zero",
+           "u32": "0#32"}
 
 
 def type_code(t, refined=False):
@@ -178,6 +194,10 @@ def type_code(t, refined=False):
         return "P" if ex[1] else "p"
     if c == "arr":
         return ("A" if ex[2] else "a") + (str(ex[1]) if ex[1] else "")
+    if c == "vr4":
+        return "M" if ex[0] else "m"
+    if c == "vr8":
+        return "N" if ex[0] else "n"
     if c == "int":
         return "i"
     if c == "bool":
@@ -408,6 +428,11 @@ class FnCtx:
             return t.t
         return "(%s).toNat" % t
 
+    def rset(self, base):
+        """update function of the region a pointer-valued expression designates (words or vector registers)"""
+        c = classify(qt(self.skip(base)))[0]
+        return {"vr4": "VRegion4.set", "vr8": "VRegion8.set"}.get(c, "Region.set")
+
     def fresh(self, base="t"):
         self.tmpn += 1
         return "%s_%d" % (base, self.tmpn)
@@ -470,6 +495,11 @@ class FnCtx:
                     if dst[0] == "m16":
                         return Const(v.v % 65536)
                     return v
+                i0 = self.skip(inner)
+                if (i0.get("kind") == "DeclRefExpr" and self.env.get(i0["referencedDecl"]["id"], {}).get("cat") == "u32"):
+                    if dst[0] == "u64":
+                        return "(BitVec.setWidth 64 %s)" % v     # unsigned 32 -> 64: zero extension
+                    raise Unsupported(n, "conversion of a uint32_t parameter to " + qt(n))
                 if src[0] == dst[0] or (src[0], dst[0]) in (("u64", "u64"),):
                     return v
                 if src[0] == "bool":
@@ -724,7 +754,7 @@ class FnCtx:
         return "(%s%s)" % (info.lean_name, "".join(" " + self.arg_in(p, a) for p, a in zip(info.params, args)))
 
     def arg_in(self, p, a):
-        if p["cat"] in ("ptr", "arr"):
+        if p["cat"] in ("ptr", "arr", "vr4", "vr8"):
             return self.region(a)
         v = self.ex(a)
         if p["cat"] == "u64":
@@ -782,10 +812,10 @@ class FnCtx:
             base = self.skip(a0["inner"][0])
             bt, bw = self.lvalue_region(base)
             i = self.as_nat(self.ex(a0["inner"][1]), a0)
-            return "(%s %s)" % (bt, i), (lambda new: bw("(Region.set %s %s %s)" % (bt, i, new)))
+            return "(%s %s)" % (bt, i), (lambda new: bw("(%s %s %s %s)" % (self.rset(base), bt, i, new)))
         if k == "UnaryOperator" and a0["opcode"] == "*":
             bt, bw = self.lvalue_region(a0["inner"][0])
-            return "(%s 0)" % bt, (lambda new: bw("(Region.set %s 0 %s)" % (bt, new)))
+            return "(%s 0)" % bt, (lambda new: bw("(%s %s 0 %s)" % (self.rset(a0["inner"][0]), bt, new)))
         raise Unsupported(a, "unsupported out argument")
 
     def lvalue_region(self, a):
@@ -878,7 +908,7 @@ class FnCtx:
             if p["mode"] == "in":
                 ins.append(self.arg_in(p, a))
             else:
-                if p["cat"] in ("ptr", "arr"):
+                if p["cat"] in ("ptr", "arr", "vr4", "vr8"):
                     rt, wb = self.lvalue_region(a)
                 else:
                     rt, wb = self.lvalue_target(a)
@@ -931,11 +961,11 @@ class FnCtx:
         if k == "ArraySubscriptExpr":
             bt, bw = self.lvalue_region(l0["inner"][0])
             i = self.as_nat(self.ex(l0["inner"][1]), l0)
-            bw("(Region.set %s %s %s)" % (bt, i, self.as_u64(rhs_term)))
+            bw("(%s %s %s %s)" % (self.rset(l0["inner"][0]), bt, i, self.as_u64(rhs_term)))
             return
         if k == "UnaryOperator" and l0["opcode"] == "*":
             bt, bw = self.lvalue_region(l0["inner"][0])
-            bw("(Region.set %s 0 %s)" % (bt, self.as_u64(rhs_term)))
+            bw("(%s %s 0 %s)" % (self.rset(l0["inner"][0]), bt, self.as_u64(rhs_term)))
             return
         raise Unsupported(lhs, "assignment target")
 
@@ -1010,6 +1040,12 @@ class FnCtx:
             if rc == "u64":
                 v = self.as_u64(v)
             return self.show(v)
+        if k == "ConditionalOperator" and self.is_assert(n):
+            # assert(e):  e ? void(0) : __assert_fail(...)   -- no effect when e is a compile-time constant that is true
+            c = self.cond(n["inner"][0])
+            if c == "true":
+                return None
+            raise Unsupported(n, "assert with a condition that is not a true compile-time constant")
         if k == "ConditionalOperator":
             # statement-level  c ? x = a : x = b
             c = self.cond(n["inner"][0])
@@ -1018,6 +1054,20 @@ class FnCtx:
         if k == "UnaryOperator" and n["opcode"] in ("++", "--") :
             raise Unsupported(n, "increment statement")
         raise Unsupported(n, "statement kind")
+
+    def is_assert(self, n):
+        inner = n.get("inner", [])
+        if len(inner) != 3:
+            return False
+        a, b = self.skip(inner[1]), self.skip(inner[2])
+        if not (a.get("kind") == "CXXFunctionalCastExpr" and a.get("castKind") == "ToVoid"):
+            return False
+        if b.get("kind") != "CallExpr":
+            return False
+        try:
+            return self.callee(b).get("name") == "__assert_fail"
+        except Unsupported:
+            return False
 
     def ex_hoist(self, n):
         """expression possibly containing a call with out-params at top level"""
@@ -1364,9 +1414,13 @@ class FnCtx:
                 nm += "'"
             used.add(nm)
             isref = t.strip().endswith("&")
+            if cat == "int" and strip_cv(t.rstrip("&").strip()) in ("uint32_t", "unsigned int", "u_int32_t"):
+                cat = "u32"      # a 32-bit unsigned parameter: BitVec 32, zero-extended where it is converted
             if cat in ("ptr", "arr"):
                 isconst = ex[1] if cat == "ptr" else ex[2]
                 mode = "in" if isconst else "inout"
+            elif cat in ("vr4", "vr8"):
+                mode = "in" if ex[0] else "inout"
             elif isref and not ("const " in t or " const" in t):
                 mode = "inout"
             else:
@@ -1394,7 +1448,7 @@ class FnCtx:
         # out-only detection for by-reference scalars/vectors
         merged_keep = set(k for k, _ in (alias or ()))
         for p in info.params:
-            if p["mode"] == "inout" and p["cat"] not in ("ptr", "arr") and p["cname"] not in merged_keep:
+            if p["mode"] == "inout" and p["cat"] not in ("ptr", "arr", "vr4", "vr8") and p["cname"] not in merged_keep:
                 if self.written_before_read(body, p["id"]):
                     p["mode"] = "out"
         for p in info.params:
